@@ -1,7 +1,8 @@
 """SimFS / SimProc: the file-I/O and helper-process seams of one simulated CLI process.
 
 Real files are used underneath (helper programs must see them).  The wrapper
- (a) appends an event per open/read/write/flush/close/remove/mkdtemp/rmtree/spawn on a managed path,
+ (a) appends an event per open/read/write/flush/close/remove/rename/mkdtemp/rmtree/spawn on a managed path (the
+     buffered layer through open/io.open, the raw layer through io.FileIO and os.open/os.write/os.close),
  (b) consults the fault plan for that event,
  (c) keeps its own write buffer, so that a *kill* discards unflushed data exactly as SIGKILL
      would, and a *torn write* persists a prefix.
@@ -29,6 +30,9 @@ LEGAL = {
     "open_w": ["EACCES", "EMFILE", "ENOSPC", "MemoryError", "KeyboardInterrupt", "kill"],
     "read": ["EIO", "MemoryError", "KeyboardInterrupt", "kill"],
     "write": ["ENOSPC", "EIO", "torn", "MemoryError", "KeyboardInterrupt", "kill"],
+    # a write on the raw layer (io.FileIO, os.write): one write(2), which may legally accept fewer bytes than offered
+    "rawwrite": ["ENOSPC", "EIO", "short", "torn", "MemoryError", "KeyboardInterrupt", "kill"],
+    "rename": ["EACCES", "EIO", "kill"],
     "flush": ["ENOSPC", "EIO", "kill"],
     "close": ["ENOSPC", "EIO", "KeyboardInterrupt", "kill"],
     "remove": ["EACCES", "EIO", "kill"],
@@ -44,6 +48,12 @@ _real_unlink = os.unlink
 _real_mkdtemp = tempfile.mkdtemp
 _real_rmtree = shutil.rmtree
 _real_popen = subprocess.Popen
+_real_fileio = io.FileIO
+_real_os_open = os.open
+_real_os_write = os.write
+_real_os_close = os.close
+_real_replace = os.replace
+_real_rename = os.rename
 
 
 class SimFile:
@@ -157,6 +167,79 @@ class SimFile:
         return getattr(self._real, name)
 
 
+def _raw_write(fs, pclass, data, really_write):
+    """One write(2) on a managed file: nothing is buffered in the process, so what is accepted is on disk at once.
+    'short': the kernel takes a prefix and reports the count (disk nearly full, file size limit, signal) - legal, no
+    error; 'torn': a prefix is taken by an earlier partial attempt and this call then fails."""
+    f = fs.event("rawwrite", pclass, defer=("torn", "short"))
+    if fs.dead:
+        return len(data)
+    data = bytes(data)
+    if f in ("torn", "short"):
+        n = len(data) // 2 if len(data) > 1 else len(data)
+        really_write(data[:n])
+        if f == "torn":
+            raise OSError(errno.ENOSPC, "No space left on device (injected, torn raw write)")
+        return n
+    done = 0
+    while done < len(data):
+        done += really_write(data[done:])
+    return done
+
+
+class SimRawFile:
+    """io.FileIO on a managed path."""
+
+    def __init__(self, fs, real, pclass, mode):
+        self._fs, self._real, self._pclass, self._mode = fs, real, pclass, mode
+        self._closed = False
+
+    def write(self, data):
+        return _raw_write(self._fs, self._pclass, data, self._real.write)
+
+    def read(self, *a):
+        self._fs.event("read", self._pclass)
+        return self._real.read(*a)
+
+    def readall(self):
+        self._fs.event("read", self._pclass)
+        return self._real.readall()
+
+    def flush(self):
+        pass
+
+    def close(self):
+        if self._closed:
+            return
+        self._closed = True
+        try:
+            self._fs.event("close", self._pclass)
+        finally:
+            self._real.close()
+
+    def __del__(self):
+        if not self._closed:
+            try:
+                self.close()
+            except BaseException as e:   # noqa
+                if isinstance(e, SimKill):
+                    self._fs.dead = True
+
+    @property
+    def closed(self):
+        return self._closed
+
+    def __enter__(self):
+        return self
+
+    def __exit__(self, *a):
+        self.close()
+        return False
+
+    def __getattr__(self, name):
+        return getattr(self._real, name)
+
+
 class FakeProc:
     """Stands for a helper process that was killed or failed: what the caller can observe."""
 
@@ -205,6 +288,7 @@ class SimFS:
         self.phase = "start"
         self.fired_phase = None
         self._installed = False
+        self.fds = {}             # descriptors opened through the os.open seam -> path class
 
     # ---- the event / fault core
     def event(self, kind, pclass, defer=()):
@@ -256,6 +340,10 @@ class SimFS:
     # ---- seams
     def open(self, file, mode="r", *a, **kw):
         if isinstance(file, int):
+            if file in self.fds:
+                # os.fdopen of a descriptor obtained through the os.open seam
+                pclass = self.fds.pop(file)
+                return SimFile(self, _real_open(file, mode, *a, **kw), pclass, mode)
             return _real_open(file, mode, *a, **kw)
         pclass = self._class_of(file)
         if pclass is None:
@@ -266,6 +354,63 @@ class SimFS:
             return SimFile(self, _real_open(os.devnull, "w" if writing else "r"), pclass, mode)
         real = _real_open(file, mode, *a, **kw)
         return SimFile(self, real, pclass, mode)
+
+    def fileio(self, file, mode="r", *a, **kw):
+        if isinstance(file, int):
+            if file in self.fds:
+                pclass = self.fds.pop(file)
+                return SimRawFile(self, _real_fileio(file, mode, *a, **kw), pclass, mode)
+            return _real_fileio(file, mode, *a, **kw)
+        pclass = self._class_of(file)
+        if pclass is None:
+            return _real_fileio(file, mode, *a, **kw)
+        writing = any(c in mode for c in "wax+")
+        self.event("open_w" if writing else "open_r", pclass)
+        if self.dead:
+            return SimRawFile(self, _real_fileio(os.devnull, "w" if writing else "r"), pclass, mode)
+        return SimRawFile(self, _real_fileio(file, mode, *a, **kw), pclass, mode)
+
+    def os_open(self, path, flags, *a, **kw):
+        pclass = self._class_of(path) if isinstance(path, (str, bytes, os.PathLike)) else None
+        if pclass is None or (flags & getattr(os, "O_DIRECTORY", 0)) or kw.get("dir_fd") is not None:
+            return _real_os_open(path, flags, *a, **kw)
+        writing = bool(flags & (os.O_WRONLY | os.O_RDWR | os.O_CREAT | os.O_TRUNC | os.O_APPEND))
+        self.event("open_w" if writing else "open_r", pclass)
+        if self.dead:
+            fd = _real_os_open(os.devnull, os.O_WRONLY if writing else os.O_RDONLY)
+        else:
+            fd = _real_os_open(path, flags, *a, **kw)
+        self.fds[fd] = pclass
+        return fd
+
+    def os_write(self, fd, data):
+        if fd not in self.fds:
+            return _real_os_write(fd, data)
+        return _raw_write(self, self.fds[fd], data, lambda d: _real_os_write(fd, d))
+
+    def os_close(self, fd):
+        pclass = self.fds.pop(fd, None)
+        if pclass is None:
+            return _real_os_close(fd)
+        try:
+            self.event("close", pclass)
+        finally:
+            _real_os_close(fd)
+
+    def _rename(self, real, src, dst, *a, **kw):
+        pclass = self._class_of(dst)
+        if pclass is None:
+            return real(src, dst, *a, **kw)
+        self.event("rename", pclass)
+        if self.dead:
+            return None
+        return real(src, dst, *a, **kw)
+
+    def replace(self, src, dst, *a, **kw):
+        return self._rename(_real_replace, src, dst, *a, **kw)
+
+    def rename(self, src, dst, *a, **kw):
+        return self._rename(_real_rename, src, dst, *a, **kw)
 
     def remove(self, path, *a, **kw):
         pclass = self._class_of(path)
@@ -287,12 +432,12 @@ class SimFS:
             if self.dead:
                 return None
         # the real rmtree must not see the remove/unlink seams (it would log one event per entry)
-        cur = (os.remove, os.unlink)
-        os.remove, os.unlink = _real_remove, _real_unlink
+        cur = (os.remove, os.unlink, os.open, os.close)
+        os.remove, os.unlink, os.open, os.close = _real_remove, _real_unlink, _real_os_open, _real_os_close
         try:
             return _real_rmtree(path, *a, **kw)
         finally:
-            os.remove, os.unlink = cur
+            os.remove, os.unlink, os.open, os.close = cur
 
     def popen(self, argv, *a, **kw):
         name = os.path.basename(argv[0]) if isinstance(argv, (list, tuple)) and argv else "sh"
@@ -310,6 +455,10 @@ class SimFS:
 
     def install(self):
         self._saved = (builtins.open, io.open, os.remove, os.unlink, tempfile.mkdtemp, shutil.rmtree, subprocess.Popen)
+        self._saved_raw = (io.FileIO, os.open, os.write, os.close, os.replace, os.rename)
+        io.FileIO = self.fileio
+        os.open, os.write, os.close = self.os_open, self.os_write, self.os_close
+        os.replace, os.rename = self.replace, self.rename
         builtins.open = self.open
         io.open = self.open
         os.remove = self.remove
@@ -322,4 +471,5 @@ class SimFS:
     def uninstall(self):
         if self._installed:
             (builtins.open, io.open, os.remove, os.unlink, tempfile.mkdtemp, shutil.rmtree, subprocess.Popen) = self._saved
+            (io.FileIO, os.open, os.write, os.close, os.replace, os.rename) = self._saved_raw
             self._installed = False
